@@ -12,7 +12,7 @@ import (
 
 func checkForce(l lm.List, d int64, filler bool) (lm.List, string, string) {
 	exp := refops.ForceDuration(l, d, filler, -1)
-	r := lm.Build(l, nil, nil)
+	r := lm.Build(l, []string{"a"}, []string{"r"})
 	pan := ""
 	func() {
 		defer func() {
@@ -56,13 +56,13 @@ func c14Run(c *core.Ctx) {
 		maxN = 4
 		units = []int64{ms, sec, hour + ms}
 	}
-	a := cueAlphabet(5, []string{"x", "y"}, false)
+	a := cueAlphabet(5, []string{"x|1\n\n2", "y"}, false)
 	for _, unit := range units {
 		enumLists(a, maxN, true, true, func(l0 lm.List) bool {
 			if !c.Mine() {
 				return true
 			}
-			l := l0.Scale(unit)
+			l := decorate(l0.Scale(unit))
 			for d := int64(1); d <= 7; d++ {
 				for _, filler := range []bool{false, true} {
 					ds := []int64{d * unit}
